@@ -195,6 +195,9 @@ def run(fx, rep):
             var = l if r['k'] == 'Const' and r.get('val') == 0 else (r if l['k'] == 'Const' and l.get('val') == 0 else None)
             if var is not None:
                 signs.append((st, set(fpv.of_operand(var))))
+    for bi, t in fb.calls():
+        if re.match(r'^core::num::<impl i\d+>::(is_negative|is_positive|signum)$', F.norm_callee(t) or ''):
+            signs.append((t, set(fpv.of_operand(t['args'][0]))))
     okk = len(mags) == 1 and len(signs) >= 1 and all(ts & recv for _, ts in signs)
     rep.check(okk, 'R4', 'sign-and-magnitude-from-one-total', fb.loc(), 'the value tested against 0 is the one whose unsigned_abs() is printed',
               'the printer tests %s against 0 but prints the magnitude of %s (%d unsigned_abs call(s)): a part of the duration has not the sign of the whole (num_seconds() is 0 for -0.5s), so string(duration(\'-1.5ms\')) loses its minus' %
